@@ -25,6 +25,10 @@ def parse_texts():
         T.append(b'{"' + b'k' * n + b'":1}')
         T.append(b'["' + b'a' * n)                       # unterminated
         T.append(b' ' * n + b'1' + b' ' * n)
+    # escape-dense strings and keys: the output buffer is sized from the input length, so every escape over-reserves
+    for n in (1, 2, 5, 7, 8, 9, 10, 11, 12, 16, 20, 33, 64):
+        for esc in (b'\\u00e9', b'\\u20ac', b'\\ud83d\\ude00', b'\\n', b'\\"', b'\\u0041'):
+            T.append(b'"' + esc * n + b'"'); T.append(b'{"' + esc * n + b'":"' + esc * ((n + 1) // 2) + b'"}'); T.append(b'["x' + esc * n + b'y", 1]')
     # long numbers: lengths around the 63 byte copy limit, exponent markers at every offset near it
     for n in range(58, 68):
         T.append(b'1' * n)
